@@ -83,6 +83,15 @@ theorem foldl_insert (f : Name → Name) (xs : List Name) (m : List Name) :
   | cons x r ih =>
     rw [List.foldl_cons, ih]; simp [mapInsert]
 
+theorem foldl_insert_nonempty (f : Name → Name) (xs : List Name) (m : List Name) :
+    xs.foldl (fun m x => if decide (len x > (0 : Int)) then mapInsert m (f x) else m) m =
+      m ++ (xs.filter (fun s => s.length > 0)).map f := by
+  induction xs generalizing m with
+  | nil => simp
+  | cons x r ih =>
+    rw [List.foldl_cons, ih]
+    cases x <;> simp [mapInsert, len]
+
 theorem foldl_append_flat {α : Type} (g : α → List Name) (xs : List α) (m : List Name) :
     xs.foldl (fun m x => m ++ g x) m = m ++ xs.flatMap g := by
   induction xs generalizing m with
@@ -121,7 +130,7 @@ theorem gen_alpnFilter_eq (cfg : Name) : Gen.TlsMatch.alpnFilter cfg = parseALPN
 /-- the keys one certificate contributes -/
 def certKeys : Option X509 → List Name
   | none => []
-  | some x => (if x.cn.length > 0 then [lower x.cn] else []) ++ x.dnsNames.map lower
+  | some x => (if x.cn.length > 0 then [lower x.cn] else []) ++ (x.dnsNames.filter (fun s => s.length > 0)).map lower
 
 theorem len_pos {α : Type} (l : List α) : decide (len l > (0 : Int)) = decide (l.length > 0) := by
   simp [len]
@@ -145,10 +154,11 @@ theorem gen_buildMatch_spec (certs : List (Option X509)) (protos : List Name) (s
     | none => simp [certKeys]
     | some x =>
       simp only [Option.isNone_some, Bool.false_eq_true, ↓reduceIte, Option.getD_some, certKeys]
-      rw [rangeLoop_fold (fun m x => mapInsert m (TlsMatchBase.toLower x)) _ (fun _ _ => rfl)]
+      rw [rangeLoop_fold (fun m x => if decide (len x > (0 : Int)) then mapInsert m (TlsMatchBase.toLower x) else m) _
+        (fun _ _ => rfl)]
       dsimp only
-      rw [foldl_insert, len_pos]
-      by_cases h : x.cn.length > 0 <;> simp [h, mapInsert, toLower_eq, toLower_fun]
+      rw [foldl_insert_nonempty, len_pos]
+      by_cases h : x.cn.length > 0 <;> simp [h, mapInsert, toLower_fun]
 
 theorem gen_buildMatch_eq (c : Ctx) :
     Gen.TlsMatch.buildMatch [some ⟨c.cn, c.sans⟩] (Gen.TlsMatch.alpnFilter c.alpnCfg) c.serverName = buildMatch c := by
@@ -380,5 +390,51 @@ theorem gen_select_eq (ps : List Ctx) (sni : Name) (protos : List Name) (k : Nat
     (fun W => match W with
       | Flow.ret r => r
       | Flow.next st => finish st.1 st.2) (fun _ => rfl) (fun _ _ => rfl) ps 0 none none
+
+/-! ### labels -/
+
+theorem splitOn_no_sep (sep : Char) (n : Name) : ∀ l ∈ splitOn sep n, sep ∉ l := by
+  induction n with
+  | nil => intro l hl; simp [splitOn] at hl; subst hl; simp
+  | cons c r ih =>
+    intro l hl
+    simp only [splitOn] at hl
+    split at hl
+    · rcases List.mem_cons.mp hl with h | h
+      · subst h; simp
+      · exact ih l h
+    · rename_i hc
+      cases hsp : splitOn sep r with
+      | nil => exact absurd hsp (splitOn_ne_nil _ _)
+      | cons a t =>
+        rw [hsp] at hl ih
+        rcases List.mem_cons.mp hl with h | h
+        · subst h
+          intro hm
+          rcases List.mem_cons.mp hm with h' | h'
+          · subst h'; simp at hc
+          · exact ih a (by simp) h'
+        · exact ih l (by simp [h])
+
+theorem joinDot_append_singleton (ls : List Name) (suf : Name) (h : ls ≠ []) :
+    joinDot (ls ++ [suf]) = joinDot ls ++ '.' :: suf := by
+  induction ls with
+  | nil => exact absurd rfl h
+  | cons a r ih =>
+    cases r with
+    | nil => simp [joinDot]
+    | cons b t =>
+      have := ih (by simp)
+      simp only [List.cons_append] at this ⊢
+      simp only [joinDot, this, List.append_assoc, List.cons_append]
+
+/-- **"no configured name equals an ALPN token and vice versa"**, as far as one ClientHello can tell: the SNI (as it is
+looked up) is not an ALPN token of a ready context, and no ALPN entry the client offers is (case-insensitively) a
+certificate name / server_name of a ready context. Outside this hypothesis lies the recorded finding (key `xns`). -/
+def NamespacesApart (ps : List Ctx) (sni : Name) (protos : List Name) : Prop :=
+  ∀ c ∈ ps, c.ready = true → normSni sni ∉ c.alpn.map lower ∧ ∀ q ∈ protos, lower q ∉ c.names.map lower
+
+instance (ps : List Ctx) (sni : Name) (protos : List Name) : Decidable (NamespacesApart ps sni protos) := by
+  unfold NamespacesApart; infer_instance
 
 end MosnVerif.Lemmas.TlsMatch
